@@ -208,6 +208,6 @@ m = {'version': 1,
      'engines': [{'name': 'pvc', 'path': 'pvc/', 'serves_properties': sorted(BUILT),
                   'kind_free_text': 'Python AST -> SMT verification-condition generator (symbolic execution per path, contracts, loop rules, structural derivative) with z3/cvc5 back ends and native replay under /venv/bin/python'}],
      'checks': checks, 'not_applicable': na,
-     'notes': 'Exit codes of ./check: 0 all obligations discharged (KNOWN-FINDING lines allowed); 1 violation (VIOLATION line); 2 undecided obligations only; 3 checker error.'}
+     'notes': 'Exit codes of ./check: 0 all obligations discharged (KNOWN-FINDING lines allowed; BOUNDED-ONLY lines = contracts outside the modelled subset whose clauses held on the native stand-in, labelled bounded, never counted as proved); 1 violation (VIOLATION line); 2 undecided obligations or obligations of the pinned tree that the run no longer generates (MISSING lines); 3 checker error.  The external CLI solvers /usr/bin/z3 and /usr/bin/cvc5 are used when present (portfolio), the in-process z3 alone otherwise.'}
 json.dump(m, open(os.path.join(ROOT, 'MANIFEST.json'), 'w'), indent=1)
 print('checks:', len(checks), 'not_applicable:', len(na))
